@@ -104,8 +104,8 @@ class Engine:
         s.trace_calls = False
         s.check_feasible_all = False
         s.max_states = 64
-        from . import models_std
-        models_std.install(s)
+        from . import models_std, models_na
+        models_std.install(s); models_na.install(s)
 
     # ---------- registry ----------
     def model(s, pattern, handler, front=False):
@@ -235,6 +235,7 @@ class Engine:
         if t.startswith('"'):
             return StrV(t[1:t.rindex('"')])
         if t.startswith('b"'): return StrV(t[2:t.rindex('"')])
+        if t in s.bodies.simple: return s.const(s.bodies.simple[t], st)
         if t in s.bodies:
             if t not in s.const_cache:
                 outs = s.call_body(s.new_state(), s.bodies[t], [])
@@ -243,7 +244,8 @@ class Engine:
             return s.const_cache[t]
         a = s.resolve_name(t)
         if a in s.bodies and a != t: return s.const(a, st)
-        m = re.match(r'^(.*)::\{constant#\d+\}$', t)
+        ev = s.enum_variant(t)
+        if ev is not None: return Enum(ev[1], [], ev[0])
         raise Inconclusive('const ' + t)
     def operand(s, st, fr, op):
         if isinstance(op, Const): return s.const(op.text, st)
@@ -364,8 +366,9 @@ class Engine:
                  'Less': ('Ordering', -1), 'Equal': ('Ordering', 0), 'Greater': ('Ordering', 1),
                  'Continue': ('ControlFlow', 0), 'Break': ('ControlFlow', 1)}
     def enum_variant(s, name):
-        n = re.sub(r'::<.*?>(?=::|$)', '', re.sub(r'<[^<>]*>', '', re.sub(r'<[^<>]*>', '', re.sub(r'<[^<>]*>', '', name))))
-        parts = n.split('::')
+        n = strip_generics(name)
+        for _ in range(4): n = re.sub(r'<[^<>]*>', '', n)
+        parts = [p for p in n.split('::') if p]
         v = parts[-1]
         if len(parts) >= 2:
             en = parts[-2]
